@@ -12,107 +12,128 @@ def T(text, technique, note=COMMON_NOTE):
 
 
 TEXTS = {
-    "C01": T("PARTIAL. Proved (Props/C01.v): the relations equiv_out / equiv_all / cons_ext compose over any number of loop iterations "
-             "of any pass list (pipeline_preserves), equiv_all and cons_ext imply equality on the outputs, statement-level "
-             "HT-equivalence lifts to programs; the pipeline order, guards and constructor arguments of api.optimize are *translated "
-             "from the source on every run* and proved to be the documented ones. Per-pass soundness is supplied by C05, C08-C16 "
-             "only on their fragments (see those checks); the always-on pipeline (preprocess/exline/postprocess) and cleanup are "
-             "hand-modelled in Coq and tied to the code by correspondence. Known defects of the unchanged tree are listed as "
-             "KNOWN-FINDINGs.",
-             "Coq proof (compositional shell over Sem/Sat.v) + source-translated pipeline + vm_compute correspondence"),
-    "C02": T("PARTIAL. Proved: the value of a sum over a tuple *set* is independent of the enumeration, sums over tuple sets that "
-             "cannot coincide add, coinciding tuples count once, equal tuple sets give equal cost (Sem/Cost.v), the telescoping "
-             "identity min D + sum of chain steps = max used by the chain passes; the tuple-distinctness test potentially_unifying is "
-             "modelled, tied by correspondence and proved sound on well-formed terms (refuted outside, KNOWN-FINDING). Not shown: "
-             "transfer of stable models for the chain passes.",
-             "Coq proof (cost algebra, telescoping) + correspondence of potentially_unifying"),
-    "C03": T("PARTIAL. Proved: every modelled loop terminates within its fuel (UniqueNames/UniqueVariables loops by pigeonhole, "
-             "unification), generated tables are total; models return exceptions as values and are compared with the real code "
-             "including the exception class (binding, normalize, cleanup, dependency). NOT provable here and said so: termination of "
-             "the outer `while True` of api.optimize and Python-level resource exhaustion; these are observed: optimize is run under a "
-             "watchdog on the fixed corpus for 12 trait selections. Known crashes are KNOWN-FINDINGs identified by exception class + "
-             "innermost ngo frame.",
-             "Coq proof (fuel bounds) + correspondence incl. exception classes + watchdog runs"),
-    "C04": T("PARTIAL. Proved: every predicate / variable name the modelled naming functions can produce is a lexically valid gringo "
-             "identifier (prefix constants generated from utils/globals.py; numbered variants), Variable(\"none\") is not. Safety, "
-             "print/parse fidelity and AST-vs-text agreement involve clingo's C++ parser/printer/grounder and are observed only: every "
-             "statement optimize returns on the fixed corpus is added to a ProgramBuilder, grounded, printed and re-parsed.",
-             "Coq proof (lexical validity over generated constants) + observed ProgramBuilder/ground/print-parse runs"),
-    "C05": T("Proved (Props/C05.v) at literal/atom level under the HT semantics and lifted to programs: splitting positive and doubly "
-             "negated comparison chains, dropping #inf/#sup guards and moving the right guard to the left (over the *generated* guard "
-             "tables), #count = #sum+ of ones; refuted: splitting a negated chain (KNOWN-FINDING). The whole of normalize.py incl. "
-             "unpool, exline and inline_arithmetic and the `--enable none` pipeline are modelled (Model/Normalize.v) and tied by 8 "
-             "correspondence families. Not shown: exline/inline equalities and old-aggregate conversion at the semantic level.",
+    "C01": T("PARTIAL. Proved (Props/C01.v): equiv_out / equiv_all / cons_ext compose over any number of loop iterations of any "
+             "pass list (pipeline_preserves); the pipeline order, guards and constructor arguments of api.optimize are translated "
+             "from the source on every run and proved to be the documented ones. Per-pass soundness comes from C05, C08-C16, each on "
+             "its stated fragment. The whole pipeline is modelled (Model/Api.v composes seven traits; sum_chains and the sympy core "
+             "of math are not composed) and tied to ngo.api.optimize by the api_optimize family and every default-trait pass's "
+             "execute family. Defects of the unchanged tree are KNOWN-FINDINGs (51 replayed witnesses).",
+             "Coq proof (compositional shell over Sem/Sat.v) + source-translated pipeline + vm_compute correspondence of every pass"),
+    "C02": T("PARTIAL. Proved: cost algebra over tuple sets (Sem/Cost.v); telescoping; sum_chain_cost / sum_chain_cost_max (the "
+             "chain statements sum_chains emits for an objective have the same cost in every total interpretation under "
+             "at-most-one); inline_agg_min_then_drop_cost (unfolding inside objectives keeps costs); project_position_equiv_cost; "
+             "potentially_unifying modelled, tied, proved sound on well-formed terms and refuted outside; refutation of the projected "
+             "group variable (KNOWN-FINDING). The objective-rewriting functions of sum_chains, minmax and inline are modelled and tied "
+             "by correspondence families.",
+             "Coq proof (cost algebra, telescoping, chain/unfold cost preservation) + vm_compute correspondence"),
+    "C03": T("PARTIAL. Proved (Link/TerminationSpec.v): every fuel bound of every model suffices for every input (cleanup's closure, "
+             "binding fixpoints, preprocess - two exline rounds suffice -, unused's outer loop, projection, dependency's domain loops, "
+             "naming loops, unification); models return exceptions as values and are compared with the real code including the "
+             "exception class. The models do not exhibit sympy, networkx, clingo calls or the outer loop of api.optimize on inputs "
+             "outside the modelled fragment: optimize is run under a watchdog on the fixed corpus for 12 trait selections; a confirmed "
+             "timeout (150 s) is a failure; a correspondence family that does not return within its deadline is a broken obligation.",
+             "Coq proof (fuel bounds for all models) + correspondence incl. exception classes + watchdog runs"),
+    "C04": T("PARTIAL. Model/Safe.v models clingo's safety check and is tied to clingo itself by the family safe_stmt; proved "
+             "(Link/SafeSpec.v): invariance under body permutation, adding/deleting a literal, replacing a sub-body by an aux atom, "
+             "the aux rule, injective renaming; ngo's own binding analysis is sound w.r.t. clingo on a stated fragment and refuted "
+             "outside (8 witnesses). Lexical validity of every generated name is proved. Print/parse fidelity involves clingo's "
+             "printer/parser and is observed: every statement optimize returns on the fixed corpus is added to a ProgramBuilder, "
+             "grounded, printed and re-parsed. Not shown: that each pass's output satisfies the premises of the preservation lemmas.",
+             "Coq proof over a model of clingo's safety (tied to clingo by correspondence) + observed ProgramBuilder/ground/print-parse"),
+    "C05": T("Proved (Props/C05.v): on its fragment the modelled preprocess yields an equiv_all program (preprocess_equiv_proof); "
+             "exline / inline_arithmetic rule-level HT-equivalences (all signs), chain splitting, guard dropping over the translated "
+             "guard tables, #count = #sum+ of ones; refuted: negated chains, self-referential equalities (KNOWN-FINDINGs). The whole "
+             "of normalize.py and the `--enable none` pipeline are modelled and tied by 8 correspondence families. Not shown: "
+             "old-style aggregate conversion at the semantic level.",
              "Coq proof (HT equivalences) + source-translated tables + vm_compute correspondence of normalize.py"),
-    "C06": T("PARTIAL. Proved: definition folding (fresh atoms defined by non-recursive rules) is a bijection between the stable models "
-             "of source and result, for arbitrary body formulas (Meta/Fold.v), and a conservative extension preserves the outputs. "
-             "The link from each pass's output to the folding schema is not closed; chain passes add recursive definitions for which "
-             "only the T-level characterisations (C12/C20) are proved.",
-             "Coq proof (G3a folding bijection)"),
-    "C07": T("Proved (Props/C07.v) for *every* history of naming requests: new_predicate / new_auxpredicate / make_unique return names "
-             "that are fresh w.r.t. the known set and pairwise distinct, never run out of fuel, and UniqueNames' initial set covers all "
-             "predicates of rules/objectives and the inputs; refuted: declared output / #show predicates are not in the known set. "
-             "Models tied by correspondence on random colliding request histories. Pass-through of non-rule statements and input heads "
-             "are observed on the fixed corpus.",
-             "Coq proof (invariant over request histories) + vm_compute correspondence"),
-    "C08": T("PARTIAL. Proved (Meta/Cleanup.v): supportedness; removing body literals implied - through the intersection over all "
-             "defining rules, closed transitively - by a retained positive atom never loses an answer set (arbitrary bodies) and never "
-             "adds one (bodies monotone in H); #true/#false elimination. cleanup.py is fully modelled (Model/Cleanup.v, incl. its "
-             "defects) and tied by 5 correspondence families. The link 'the modelled mappings satisfy the schema's premises' "
-             "(mapping_meaning) is not closed; five defects are KNOWN-FINDINGs.",
-             "Coq proof (G2 cleanup meta-theorem) + vm_compute correspondence of cleanup.py"),
-    "C09": T("PARTIAL. Proved (Meta/Drop.v): rules defining atoms that nothing observes can be dropped (restriction maps stable models "
-             "onto stable models, every stable model of the kept part extends). unused.py is hand-modelled and tied by correspondence "
-             "when Model/Unused.v is present. Position projection and copy-rule unfolding are not linked; defects are KNOWN-FINDINGs.",
-             "Coq proof (G4 drop) + correspondence"),
-    "C10": T("PARTIAL. Proved: the folding bijection (G3a) that a factored-out literal set instantiates. literal_duplication.py itself is "
-             "not modelled; the clingo differential run over the fixed corpus is support only.",
-             "Coq proof (G3a folding bijection)"),
-    "C11": T("PARTIAL. Proved (Meta/Count.v) for any strict total order: a symmetric join under != fires iff the ordered join under < "
-             "fires; k pairwise distinct members iff a strictly increasing k-tuple iff count >= k. symmetry.py itself is not modelled; "
-             "the link (crosscheck implies invariance) is not closed; defects are KNOWN-FINDINGs.",
-             "Coq proof (G5 counting vs joining)"),
-    "C12": T("PARTIAL. Proved (Meta/Chain.v) for finite sorted domains of any size: the generated next predicate is exactly the "
-             "successor relation, the chain predicate is the down-closure of the element values, its top is the maximum, telescoping; "
-             "negate_comparison (generated) is exact. minmax_aggregates.py is not modelled; transfer of minimality is not shown.",
-             "Coq proof (G6 chain meaning) + source-translated tables"),
-    "C13": T("PARTIAL. Proved: guaranteed_leq/geq (translated from source) are sound bounds, supportedness (at most one value per group "
-             "follows from a single bounded defining rule), telescoping sums, disjoint tuple sets add. sum_aggregates.py itself is not "
-             "modelled; three unsound at-most-one inferences are KNOWN-FINDINGs.",
-             "Coq proof over source-translated definitions + G6/G8"),
-    "C14": T("PARTIAL, the weakest claim: sympy's Groebner/solve core is not modelled. Proved: compare/negate/rhs2lhs tables (generated) "
-             "are exact over the integers, the slack encoding of comparisons is exact, merging #sum aggregates with distinct __agg tags "
-             "adds (and is wrong without tags), #sum+ ignores negative weights, X = Y*3 is not solvable over the integers (the defect).",
-             "Coq proof (integer algebra) + source-translated tables"),
-    "C15": T("PARTIAL. Proved: potentially_unifying (modelled, tied by correspondence) is sound on well-formed terms - if two tuples can "
-             "evaluate to the same values the test answers True - and refuted outside (unique vs unique(), unary minus on negative "
-             "symbols: KNOWN-FINDING with a clingo replay); sums over tuple sets that cannot coincide add. inline.py itself is not modelled.",
-             "Coq proof (soundness of the distinctness test) + correspondence"),
-    "C16": T("PARTIAL. Proved: the folding bijection (G3a) a rule split instantiates; projection.py (good_split, project_rule, execute) is "
-             "fully modelled (Model/Projection.v) and tied by 5 correspondence families. The link good_split => folding premises is "
-             "not closed.",
-             "Coq proof (G3a) + vm_compute correspondence of projection.py"),
-    "C17": T("PARTIAL. In-place mutation, hashing and cross-process behaviour are facts of the Python runtime that Gallina values cannot "
-             "exhibit; they are observed (argument compared before/after, repeated and history-shifted runs, PYTHONHASHSEED variation). "
-             "Proved: the modelled functions that iterate over Python sets return order-independent results (auto_detect_input "
-             "membership), and the naming state is history-deterministic (C07 theorems).",
-             "observed purity runs + Coq proof of order-independence of modelled set iterations"),
+    "C06": T("PARTIAL. Proved: definition folding is a bijection between stable models (Meta/Fold.v) and its instances at the level "
+             "of Sem/Sat.v: projection_split_sound / project_rule_sound (projection), duplication_step_sound (duplication), "
+             "neq_to_lt / all_neq_to_chain (symmetry), simple_translation_program_sound (minmax simple translation), "
+             "project_position_sound (a bijection). For the chain encodings only the meaning of the chain predicates and the "
+             "soundness half are proved (C12, C13). The link from each pass's model to the schema's premises is closed for projection "
+             "(project_rule_sound) and on concrete outputs elsewhere.",
+             "Coq proof (folding bijection and its Sat.v instances) + vm_compute correspondence of the passes"),
+    "C07": T("Proved (Props/C07.v): for every history of naming requests the names are fresh and pairwise distinct; "
+             "PassthroughSpec: every modelled pass and Api.optimize return #show p/n, #const, #external ... unchanged and in order; "
+             "for `#show t : body` this is refuted for unused (KNOWN-FINDING) and proved when the body predicates are declared "
+             "outputs; the names a pass invents are the log of its new_predicate calls, disjoint from the source vocabulary. The "
+             "oracle checks pass-through, input heads and rename-invariance of the result's shape on the fixed corpus.",
+             "Coq proof (invariant over request histories, pass-through of all modelled passes) + vm_compute correspondence"),
+    "C08": T("PARTIAL. Proved: the cleanup meta-theorem (Meta/Cleanup.v) and execute_core_sound: on a decidable fragment the program "
+             "returned by the modelled cleanup has the same stable models for every instance over the inputs (through "
+             "ground_stable_iff). cleanup.py is fully modelled (incl. its defects) and tied by 5 families. Outside the fragment "
+             "(conditional literals, aggregates, `_`) only correspondence + KNOWN-FINDINGs.",
+             "Coq proof (cleanup meta-theorem linked to the model) + vm_compute correspondence of cleanup.py"),
+    "C09": T("PARTIAL. Proved: remove_unused_sound (dropping unused definitions), project_position_sound (dropping unread argument "
+             "positions is a bijection on answer sets; equiv_out / equiv_cost corollaries; many-to-one for choice-defined predicates "
+             "is exactly what ngo excludes), project_negated_sound, copy_rule_shortcut_sound; refutations on the model's own output: "
+             "copy chains, negated head literal, read position. unused.py is fully modelled and tied by 7 families.",
+             "Coq proof (drop / projection bijection / copy rules over Sem/Sat.v) + vm_compute correspondence of unused.py"),
+    "C10": T("PARTIAL. Proved (Link/DuplicationSem.v): folding an occurrence against an existing definition preserves answer sets "
+             "(fold_existing_sound), definition + k folds is a conservative extension (duplication_step_sound), the side condition "
+             "vars New <= ts is necessary; the model's output on a concrete program is proved a conservative extension. "
+             "literal_duplication.py is fully modelled and tied by 10 families. Fragment: simple literals; conditional literals and "
+             "aggregate elements only by correspondence.",
+             "Coq proof (fold against existing definition) + vm_compute correspondence of literal_duplication.py"),
+    "C11": T("PARTIAL. Proved (Link/SymmetrySem.v, axiom-free): X != Y -> X < Y is an HT-equivalence for bodies invariant under a "
+             "renaming swapping X and Y; all pairwise != -> a < chain for k copies; program-level equiv_all; refutations (mixed "
+             "sign: KNOWN-FINDING; cyclic <); three rules for which the model's output is proved equivalent. symmetry.py is fully "
+             "modelled and tied by 7 families. Not shown: the #count rewrite of complex mode and the in-aggregate mode.",
+             "Coq proof (symmetry breaking over Sem/Sat.v) + vm_compute correspondence of symmetry.py"),
+    "C12": T("PARTIAL. Proved: the dispatch table of _process_rule (translated from source); MinMaxSem: the simple translation is "
+             "HT-equivalent iff the tuple sets have an extremum and the bound is not the empty-set value; the negated case is sound "
+             "for total interpretations only and loses answer sets (KNOWN-FINDING, refuted on the model's own output); the meaning of "
+             "min/next/chain predicates in every stable model. minmax_aggregates.py is fully modelled and tied by 9 families. Not "
+             "shown: completeness half for the chain translation.",
+             "Coq proof (simple translation over Sem/Sat.v, chain meaning) + source-translated dispatch + vm_compute correspondence"),
+    "C13": T("PARTIAL. Proved (Link/SumChainsSem.v): telescoping, chain_meaning in every stable model, sum_chain_value / _agg / "
+             "_elems (under at-most-one the aggregate value is unchanged), refutations (no at-most-one, #sum+ with a negative minimum, "
+             "non-integer domain values), soundness half for the model's output on the standard example. sum_aggregates.py is fully "
+             "modelled (set iteration order as explicit argument) and tied by 9 families. Not shown: completeness half; three unsound "
+             "at-most-one inferences are KNOWN-FINDINGs.",
+             "Coq proof (chain meaning, sum preservation) + vm_compute correspondence of sum_aggregates.py"),
+    "C14": T("PARTIAL. sympy's Groebner/solve core is not modelled. The glue is (Model/Math.v): sympy2ast branch by branch and the "
+             "acceptance / operator table of the term -> sympy direction, tied by 2 families; proved: exact acceptance condition, "
+             "rationals / Mod / floor never translated, value soundness against exact rational evaluation, the term -> sympy direction "
+             "sound only for non-negative dividends / positive divisors / non-negative exponents and refuted otherwise "
+             "(KNOWN-FINDINGs); comparison tables exact. The rewrite decision itself is covered only by the oracle on "
+             "corpus/oracle_math.lp (39 programs on which math really rewrites).",
+             "Coq proof over a model of the sympy glue + vm_compute correspondence + clingo differential runs on a math corpus"),
+    "C15": T("PARTIAL. Proved (Link/InlineSem.v): unfolding a single-rule definition into its only positive occurrence (body literal, "
+             "aggregate element of any function, objective) and deleting the definition is a conservative extension with equal "
+             "costs; one direction without stratification, the converse under a splitting hypothesis and refuted without "
+             "(KNOWN-FINDING); refutations for every side condition; potentially_unifying sound on well-formed terms. inline.py is "
+             "fully modelled and tied by 18 families. Not shown: bodies that themselves contain an aggregate (the shape ngo unfolds) "
+             "beyond the element-level lemma.",
+             "Coq proof (unfolding over Sem/Sat.v) + vm_compute correspondence of inline.py"),
+    "C16": T("Proved: projection_split_sound (a split satisfying the interface condition is a conservative extension) and "
+             "project_rule_sound (a split performed by the modelled project_rule is one); aux rules are safe iff the kept variables "
+             "are bound (SafeSpec). projection.py is fully modelled and tied by 5 families. Fragment: simple programs without `_`.",
+             "Coq proof (rule split = conservative extension, linked to the model) + vm_compute correspondence of projection.py"),
+    "C17": T("PARTIAL. In-place mutation, hashing and cross-process behaviour are facts of the Python runtime that Gallina values "
+             "cannot exhibit; they are observed (argument compared before/after, repeated and history-shifted runs, fresh "
+             "interpreters under several hash seeds). Proved: the census of every iteration over a hash-ordered collection and of all "
+             "process-level state in src/ngo (regenerated from the source on every run) equals the audited list; membership of "
+             "auto_detect_input is order-free; naming is history-deterministic. 8 of 18 audited sites can carry hash order into the "
+             "result (one is a KNOWN-FINDING).",
+             "source-translated purity census proved equal to an audited list + observed purity runs"),
     "C18": T("Coq theorems (Props/C18.v) state, for every program of the AST mirror, that the modelled collectors return exactly the "
              "predicates occurring in rules/objectives, that every predicate never occurring as a positive head atom is returned by "
              "auto_detect_input, that a predicate derived by a statement whose body does not mention it is never returned, and that "
              "auto_detect_output is exactly the shown ones; the model is tied to utils/ast.py and utils/globals.py by correspondence. "
              "Atoms written with a pool are a KNOWN-FINDING.",
              "Coq proof over hand-written model + vm_compute correspondence with the Python collectors"),
-    "C19": T("The option tables, VerifyEnable.__call__, the keyword wiring in __main__ and optimize's signature are translated from the "
-             "source on every run (Gen/Cli.v); Props/C19.v proves for every token list of any length that a trait is enabled iff the "
-             "documented expansion says so, 'none' combined is rejected, default = all but duplication, the nine keywords receive "
-             "membership of their own names. argparse/stdin/stdout are outside Coq: the translated action is compared with the real "
-             "parser on all token lists up to length 3 (exhaustive) plus random longer ones, and python -m ngo is run against "
-             "optimize() on trait subsets, predicate options and log levels.",
+    "C19": T("The option tables, VerifyEnable.__call__, PredicateList's constants, the keyword wiring in __main__ and optimize's "
+             "signature are translated from the source on every run (Gen/Cli.v, fail-closed); Props/C19.v proves for every token list "
+             "that a trait is enabled iff the documented expansion says so, and that name/arity lists are parsed entry by entry in "
+             "order (nothing merged). argparse/stdin/stdout are outside Coq: the translated action and the list parser are compared "
+             "with the real parser, and python -m ngo is run against optimize() on trait subsets, predicate options (incl. one name "
+             "with two arities) and log levels.",
              "Coq proof over source-translated definitions + exhaustive small-scope correspondence with argparse + CLI/API differential runs"),
-    "C20": T("PARTIAL. Proved (Meta/Chain.v) in terms of the extensions of the auxiliary predicates in any interpretation that satisfies "
-             "and supports the generated rules (true of every stable model by the supportedness theorem): next is exactly the successor "
-             "relation of the domain, chain is the down-closure. dependency.py (static analysis, domain rules, naming cache, generators) "
-             "is modelled and tied by correspondence. dom over-approximation is false under negation / input predicates (KNOWN-FINDINGs).",
-             "Coq proof (G6) + vm_compute correspondence of dependency.py"),
+    "C20": T("PARTIAL. Proved: next is exactly the successor relation and min the least value in every stable model of the emitted "
+             "rules (shape checked on the model's output); DomainSem: p(t) implies __dom_p(t) in every stable model whenever every "
+             "defining rule has a covered domain rule, domain predicates have the same extension in all answer sets, a validator "
+             "proved sound and run on the model's output; refutations replayed on the real code (negation, input facts, condition of "
+             "a conditional literal: KNOWN-FINDINGs). dependency.py is fully modelled and tied by 6 families.",
+             "Coq proof (order encoding meaning, domain over-approximation) + vm_compute correspondence of dependency.py"),
 }
